@@ -1516,6 +1516,44 @@ impl Ctx {
             }
             other => Some(("C12:debug-program-failed".to_string(), json!({"replay_kind": "debug", "program": src, "expected_prefix_lines": want, "observed": format!("{:?}", other)}))),
         };
+        // (K) Model/SrcMap.debugPrefixLine on the real chunk's source map (rebuilt from the lookups of
+        // all instruction ips) at every Debug instruction = the set of prefixes actually printed
+        if let (None, Ok(chunk)) = (&fail, compile(src)) {
+            let mut reader = InstructionReader::new(chunk.clone());
+            let mut entries = String::new();
+            let mut last: Option<Span> = None;
+            let mut dbg_ips = vec![];
+            loop {
+                let ip = reader.ip as u32;
+                let Some(instr) = reader.next() else { break };
+                let sp = chunk.debug_info.get_source_span(ip);
+                if sp != last {
+                    if let Some(sp) = sp {
+                        entries.push_str(&format!(" {}:{}", ip, span_s(&sp)));
+                    }
+                    last = sp;
+                }
+                if matches!(instr, koto_bytecode::Instruction::Debug { .. }) {
+                    dbg_ips.push(ip);
+                }
+            }
+            let reqs: Vec<String> = dbg_ips.iter().map(|ip| format!("dbg{entries} | {ip}")).collect();
+            let resps = self.drv.batch(&reqs);
+            let mut model_set: Vec<String> = resps.clone();
+            model_set.sort();
+            model_set.dedup();
+            let mut real_set: Vec<String> = want.iter().map(|n| format!("[{n}]")).collect();
+            real_set.sort();
+            real_set.dedup();
+            self.rep.bump_by("debug_instructions_modelled", dbg_ips.len() as u64);
+            if model_set != real_set {
+                self.k(
+                    "K:C12:SrcMap.debugPrefixLine",
+                    json!({"replay_kind": "debug", "program": src, "expected_prefix_lines": want, "model_prefixes": model_set, "impl_prefixes": real_set,
+                           "note": "debug prefixes predicted by Model/SrcMap.lean from the chunk's source map differ from the printed ones"}),
+                );
+            }
+        }
         if self.rep.samples.len() < 10 && self.rep.evaluations % 97 == 1 {
             if let Real::Ok { stdout } = &real {
                 self.rep.sample(json!({"kind": "debug", "program": src, "expected_prefix_lines": want, "impl_stdout": stdout}));
